@@ -207,6 +207,22 @@ func Universe(depth int) []Kind {
 	overCmp(&u, b.U128, depth)
 	overCmp(&u, b.Bool, depth)
 	u = append(u, dateKind(), date32Kind(), dateTimeKind(), dateTime64Kind(3), dateTime64Kind(9), intervalKind())
+	// the same wire types through the other column implementations the library offers
+	u = append(u,
+		&kindOf[[]byte]{name: "String", ast: map[string]any{"k": "string"}, newCol: func() proto.ColumnOf[[]byte] { return new(proto.ColBytes) },
+			toAbs: func(v []byte) any { return Ints(v) }, fromAbs: func(a any) []byte { return Bytes(a) }, gen: genString, zero: func() any { return []int{} }},
+		&kindOf[[]byte]{name: "JSON", ast: map[string]any{"k": "json"}, newCol: func() proto.ColumnOf[[]byte] { return new(proto.ColJSONBytes) },
+			toAbs: func(v []byte) any { return Ints(v) }, fromAbs: func(a any) []byte { return Bytes(a) }, gen: genString, zero: func() any { return []int{} }},
+		Fixed[proto.DateTime64]("DateTime64(6)", 8, func() proto.ColumnOf[proto.DateTime64] {
+			c := new(proto.ColDateTime64Raw)
+			c.WithPrecision(6)
+			return c
+		}),
+		&rawKind{name: "IntervalMonth", w: 8, mk: func() (proto.Column, func([]byte), func(int) []byte) {
+			c := &proto.ColInterval{Scale: proto.IntervalMonth}
+			return c, func(b []byte) { c.Append(proto.Interval{Scale: proto.IntervalMonth, Value: int64(binary.LittleEndian.Uint64(b))}) },
+				func(i int) []byte { return le(c.Row(i).Value) }
+		}})
 	if depth >= 2 {
 		// named tuples: elements wrapped in proto.ColNamed, also around columns with a state prefix, a Prepare step
 		// or an inferred definition
